@@ -12,6 +12,7 @@ from the live Python classes on every run.
 import MesonModel.ArgList.SpecLemmas
 import MesonModel.ArgList.NativeLemmas
 import MesonModel.ArgList.RefLemmas
+import MesonModel.ArgList.RegexLemmas
 import MesonModel.Generated.ArgTables
 
 namespace MesonModel.Props.C13
@@ -405,6 +406,72 @@ theorem once_only_not_repeated (L b : List Arg) (x : Arg) (hx : K.dd x = .unique
   · intro h
     simp only [h, if_false, List.count_eq_zero.mpr h]
     split <;> omega
+
+/-! ### which repeats are dropped: the classification decides, and a library file is once-only -/
+
+/-- a never-de-duplicated argument repeated in a batch is kept twice -/
+theorem nodedup_repeat_kept (L : List Arg) (a : Arg) (ha : K.dd a = .noDedup) (hL : a ∉ L) :
+    (specAdd K L [a, a]).count a = 2 := by
+  have h := nodedup_keep_order_and_multiplicity K L [a, a]
+  have hnd : (decide (K.dd a = .noDedup)) = true := by simp [ha]
+  have h1 : ((specAdd K L [a, a]).filter (fun x => K.dd x = .noDedup)).count a = (specAdd K L [a, a]).count a :=
+    List.count_filter hnd
+  have e1 : ((([a, a] : List Arg).filter (fun x => K.pp x)).filter (fun x => K.dd x = .noDedup)).count a =
+      (([a, a] : List Arg).filter (fun x => K.pp x)).count a := List.count_filter hnd
+  have e2 : (L.filter (fun x => K.dd x = .noDedup)).count a = L.count a := List.count_filter hnd
+  have e3 : ((([a, a] : List Arg).filter (fun x => !K.pp x)).filter (fun x => K.dd x = .noDedup)).count a =
+      (([a, a] : List Arg).filter (fun x => !K.pp x)).count a := List.count_filter hnd
+  have hs := count_filter_split (fun x => K.pp x) [a, a] a
+  have h0 : L.count a = 0 := List.count_eq_zero.mpr hL
+  have h2 : ([a, a] : List Arg).count a = 2 := by simp
+  rw [← h1, h, List.count_append, List.count_append, e1, e2, e3]
+  omega
+
+/-- **a repeated argument is dropped exactly when the classification says it can be de-duplicated** -/
+theorem repeat_dropped_iff (L : List Arg) (a : Arg) (hL : a ∉ L) :
+    (specAdd K L [a, a]).count a = 1 ↔ K.dd a ≠ .noDedup := by
+  constructor
+  · intro h hn
+    rw [nodedup_repeat_kept K L a hn hL] at h
+    omega
+  · intro h
+    cases hd : K.dd a with
+    | noDedup => exact absurd hd h
+    | unique => exact (once_only_not_repeated K L [a, a] a hd).2.1 hL (by simp)
+    | overridden => exact override_survivor_unique K L [a, a] a hd (by simp)
+
+/-- for the base class (live tables): the repeat is dropped exactly for library files -- a name with one
+of the documented suffixes, or a path the recogniser of `dedup1_regex` accepts (per-run obligation on the
+regenerated tables) -/
+theorem base_repeat_dropped_iff_library_file (L : List Arg) (a : Arg) (hL : a ∉ L) :
+    (specAdd baseTables.classify L [a, a]).count a = 1 ↔
+      (endsWithAny baseTables.dedup1Suffixes a = true ∨ dedup1Regex a = true) := by
+  rw [repeat_dropped_iff baseTables.classify L a hL]
+  simp only [Tables.classify, Tables.dd, baseTables, startsWithAny, endsWithAny, List.any_nil, List.not_mem_nil,
+    Bool.false_eq_true, false_or, or_self, if_false]
+  split <;> simp_all
+
+/-- **what the recogniser must accept**: every path `dir/libNAME.so[.N[.N[.N]]]` -- `lib` at the start of
+a path component (after `/` or `\` or at the very start), no line break in the name, at most three
+version components, each one or more digits *of any length* -- is once-only for the base class (and so for
+every class that does not classify it earlier) -/
+theorem versioned_library_is_once_only (dir name : List Char) (comps : List (List Char))
+    (hd : DirOk dir) (hn : ∀ x ∈ name, x ≠ '\n') (hl : comps.length ≤ 3) (hc : ∀ c ∈ comps, NumComp c) :
+    baseTables.dd (dir ++ ['l', 'i', 'b'] ++ name ++ ['.', 's', 'o'] ++ comps.flatMap (fun c => '.' :: c)) = .unique := by
+  have h := versioned_so_accepted dir name comps hd hn hl hc
+  simp only [Tables.dd, baseTables, startsWithAny, endsWithAny, List.any_nil, List.not_mem_nil,
+    Bool.false_eq_true, false_or, or_self, if_false, h, or_true, if_true]
+
+/-- the hypotheses are met by `/usr/lib64/libcrypto.so.10`, `libicuuc.so.74.2`, `libboost_system.so.1.83.0` -/
+example : baseTables.dd "/usr/lib64/libcrypto.so.10".toList = .unique ∧ baseTables.dd "libicuuc.so.74.2".toList = .unique ∧
+    baseTables.dd "libboost_system.so.1.83.0".toList = .unique := by decide
+
+/-- and the other side of each alternative: four components, a trailing dot, a non-numeric component, no
+`lib` at the start of a component, upper case, `.so` not at the end -/
+example : baseTables.dd "libfoo.so.1.2.3.4".toList = .noDedup ∧ baseTables.dd "libfoo.so.1.".toList = .noDedup ∧
+    baseTables.dd "libfoo.so.1a".toList = .noDedup ∧ baseTables.dd "xlibfoo.so.1".toList = .noDedup ∧
+    baseTables.dd "LIBFOO.SO.1".toList = .noDedup ∧ baseTables.dd "libfoo.so.1.bar".toList = .noDedup ∧
+    baseTables.dd "dir/foo.so.12".toList = .noDedup := by decide
 
 /-! ### once-only arguments on the implementation's `+=`, every class
 
